@@ -396,6 +396,22 @@ func runC03(c *core.Ctx) {
 			run("v3", "map-keys", strings.Join(sub, "|"), doc, true)
 		}
 	}
+	// required or meaningful members whose value is empty: they are part of the document all the same
+	{
+		// (a server variable whose default is the empty text is, for the library, a variable without its required default:
+		// Validate says so in words a pinned test spells out; it is not planted as a normal-form input)
+		ex := v3Base()
+		ex["components"] = gen.S{"examples": gen.S{"E": gen.S{"value": ""}}, "schemas": gen.S{"S": gen.S{"type": "string", "default": "", "example": ""}, "Z": gen.S{"type": "integer", "default": 0.0, "example": 0.0, "enum": gen.Arr(0.0)}, "B": gen.S{"type": "boolean", "default": false, "example": false}}}
+		run("v3", "empty-but-present", "example/default of empty text, zero and false", ex, true)
+		v2p := gen.S{"swagger": "2.0", "info": gen.S{"title": "t", "version": "1"}, "paths": gen.S{}}
+		run("v2", "empty-but-present", "paths empty object", v2p, true)
+		v2s := gen.S{"swagger": "2.0", "info": gen.S{"title": "t", "version": "1"}, "paths": gen.S{"/p": gen.S{"get": gen.S{"responses": gen.S{"200": gen.S{"description": "ok"}}}}},
+			"securityDefinitions": gen.S{"o": gen.S{"type": "oauth2", "flow": "application", "tokenUrl": "https://a.x/t", "scopes": gen.S{}}}}
+		run("v2", "empty-but-present", "oauth2 scopes empty object", v2s, true)
+		v3s := v3Base()
+		v3s["components"] = gen.S{"securitySchemes": gen.S{"o": gen.S{"type": "oauth2", "flows": gen.S{"clientCredentials": gen.S{"tokenUrl": "https://a.x/t", "scopes": gen.S{}}}}}}
+		run("v3", "empty-but-present", "oauth flow scopes empty object", v3s, true)
+	}
 	// PRNG-drawn subsets
 	r := c.Rng("subsets")
 	for i, n := 0, c.Pick(2000, 120000); i < n; i++ {
